@@ -247,29 +247,49 @@ fn swap_keys(op: Op) -> Op {
     }
 }
 
-/// All 2 × 2 programs over `alphabet`, one representative per symmetry class
-/// (exchange of the two tasks; exchange of the two keys when the setup is empty).
-fn programs_2x2(sys: Sys, alphabet: &[Op], setups: &[Vec<Op>], bound: usize) -> Vec<Program> {
+/// All programs with `shape[t]` operations in task `t` over `alphabet`, one
+/// representative per symmetry class (exchange of tasks of equal length; exchange
+/// of key0/key1 when the setup is empty).
+fn programs(sys: Sys, alphabet: &[Op], setups: &[Vec<Op>], shape: &[usize], bound: usize) -> Vec<Program> {
+    fn canon(mut t: Vec<Vec<Op>>) -> Vec<Vec<Op>> {
+        // tasks of equal length are interchangeable: sort them (stable within each length class)
+        t.sort_by(|a, b| a.len().cmp(&b.len()).then_with(|| a.cmp(b)));
+        t
+    }
+    let slots: usize = shape.iter().sum();
     let mut out = Vec::new();
     for setup in setups {
-        for &a0 in alphabet {
-            for &a1 in alphabet {
-                for &b0 in alphabet {
-                    for &b1 in alphabet {
-                        let t = [[a0, a1], [b0, b1]];
-                        let canon = |t: [[Op; 2]; 2]| if t[0] <= t[1] { t } else { [t[1], t[0]] };
-                        if canon(t) != t {
-                            continue;
-                        }
-                        if setup.is_empty() {
-                            let sw = canon([[swap_keys(a0), swap_keys(a1)], [swap_keys(b0), swap_keys(b1)]]);
-                            if sw < t {
-                                continue;
-                            }
-                        }
-                        out.push(Program { sys, setup: setup.clone(), tasks: vec![t[0].to_vec(), t[1].to_vec()], bound });
-                    }
+        let mut idx = vec![0usize; slots];
+        'outer: loop {
+            let mut tasks: Vec<Vec<Op>> = Vec::new();
+            let mut p = 0;
+            for &n in shape {
+                tasks.push(idx[p..p + n].iter().map(|&i| alphabet[i]).collect());
+                p += n;
+            }
+            let c = canon(tasks.clone());
+            let mut keep = c == tasks;
+            if keep && setup.is_empty() {
+                let sw = canon(tasks.iter().map(|t| t.iter().map(|o| swap_keys(*o)).collect()).collect());
+                if sw < tasks {
+                    keep = false;
                 }
+            }
+            if keep {
+                out.push(Program { sys, setup: setup.clone(), tasks, bound });
+            }
+            // next tuple
+            let mut d = slots;
+            loop {
+                if d == 0 {
+                    break 'outer;
+                }
+                d -= 1;
+                idx[d] += 1;
+                if idx[d] < alphabet.len() {
+                    break;
+                }
+                idx[d] = 0;
             }
         }
     }
@@ -419,6 +439,7 @@ fn run_dfs_section(ck: &mut Check, name: &'static str, scope: String, programs: 
     let mut classes: Vec<(String, u64)> = st.classes.into_iter().collect();
     classes.push(("programs".into(), st.programs));
     classes.push(("max-schedules-of-one-program".into(), st.max_schedules_per_program));
+    classes.push(("wall-seconds".into(), t0.elapsed().as_secs()));
     ck.record_external(name, st.evaluations, st.nontrivial, classes, st.samples, if complete { Some(scope) } else { None });
     for (k, n) in st.known {
         ck.count_known(name, &k, n);
@@ -606,24 +627,33 @@ fn main() {
         // one key: bound 3; two keys: bound 2 (quick) / 3 (thorough)
         let setups1: Vec<Vec<Op>> = vec![vec![], vec![Op::Put { k: 0 }], vec![Op::PutZero { k: 0 }]];
         let setups2: Vec<Vec<Op>> = tier.pick(vec![vec![], vec![Op::PutZero { k: 0 }]], vec![vec![], vec![Op::Put { k: 0 }], vec![Op::PutZero { k: 0 }], vec![Op::Put { k: 0 }, Op::PutZero { k: 1 }]]);
-        let mut progs = programs_2x2(Sys::Memory, &cache_alphabet(&k0), &setups1, BOUND);
+        let mut progs = programs(Sys::Memory, &cache_alphabet(&k0), &setups1, &[2, 2], BOUND);
         let one = progs.len();
-        let two: Vec<Program> = programs_2x2(Sys::Memory, &cache_alphabet(&k01), &setups2, tier.pick(2, BOUND)).into_iter().filter(|p| uses_key(p, 1)).collect();
+        let two: Vec<Program> = programs(Sys::Memory, &cache_alphabet(&k01), &setups2, &[2, 2], tier.pick(2, BOUND)).into_iter().filter(|p| uses_key(p, 1)).collect();
         let ntwo = two.len();
         progs.extend(two);
+        let mut more = String::new();
+        if tier == vh_engine::Tier::Thorough {
+            let s: Vec<Vec<Op>> = vec![vec![], vec![Op::PutZero { k: 0 }]];
+            let a = programs(Sys::Memory, &cache_alphabet(&k0), &s, &[3, 3], BOUND);
+            let b = programs(Sys::Memory, &cache_alphabet(&k0), &s, &[2, 2, 2], 2);
+            more = format!(" + {} programs of 2 tasks x 3 ops on key0 (<= {BOUND} pre-emptions) + {} programs of 3 tasks x 2 ops on key0 (<= 2 pre-emptions), setups {s:?}", a.len(), b.len());
+            progs.extend(a);
+            progs.extend(b);
+        }
         let scope = format!(
-            "MemoryCache, 2 tasks x 2 ops over {{get, contains, put, put_with_ttl(ZERO), remove}} + clear, one program per task/key symmetry class, every schedule up to the pre-emption bound at the sched_point sites:              {one} programs on key0 only with setups {setups1:?} (<= {BOUND} pre-emptions) + {ntwo} programs that also use key1 with setups {setups2:?} (<= {} pre-emptions)",
+            "MemoryCache, 2 tasks x 2 ops over {{get, contains, put, put_with_ttl(ZERO), remove}} + clear, one program per task/key symmetry class, every schedule up to the pre-emption bound at the sched_point sites:              {one} programs on key0 only with setups {setups1:?} (<= {BOUND} pre-emptions) + {ntwo} programs that also use key1 with setups {setups2:?} (<= {} pre-emptions){more}",
             tier.pick(2, BOUND)
         );
         run_dfs_section(&mut ck, "dfs-memory", scope, progs, 16, &known_keys);
     }
     {
         let setups1: Vec<Vec<Op>> = vec![vec![], vec![Op::Put { k: 0 }], vec![Op::PutZero { k: 0 }]];
-        let mut progs = programs_2x2(Sys::Disk, &cache_alphabet(&k0), &setups1, tier.pick(2, BOUND));
+        let mut progs = programs(Sys::Disk, &cache_alphabet(&k0), &setups1, &[2, 2], tier.pick(2, BOUND));
         let one = progs.len();
         let mut ntwo = 0;
         if tier == vh_engine::Tier::Thorough {
-            let two: Vec<Program> = programs_2x2(Sys::Disk, &cache_alphabet(&k01), &[vec![], vec![Op::PutZero { k: 0 }]], 2).into_iter().filter(|p| uses_key(p, 1)).collect();
+            let two: Vec<Program> = programs(Sys::Disk, &cache_alphabet(&k01), &[vec![], vec![Op::PutZero { k: 0 }]], &[2, 2], 2).into_iter().filter(|p| uses_key(p, 1)).collect();
             ntwo = two.len();
             progs.extend(two);
         }
@@ -635,9 +665,9 @@ fn main() {
     }
     {
         let setups: Vec<Vec<Op>> = vec![vec![], vec![Op::Put { k: 0 }]];
-        let mut progs = programs_2x2(Sys::Container, &container_alphabet(&k0), &setups, BOUND);
+        let mut progs = programs(Sys::Container, &container_alphabet(&k0), &setups, &[2, 2], BOUND);
         let one = progs.len();
-        let two: Vec<Program> = programs_2x2(Sys::Container, &container_alphabet(&k01), &setups, tier.pick(1, BOUND)).into_iter().filter(|p| uses_key(p, 1)).collect();
+        let two: Vec<Program> = programs(Sys::Container, &container_alphabet(&k01), &setups, &[2, 2], tier.pick(1, BOUND)).into_iter().filter(|p| uses_key(p, 1)).collect();
         let ntwo = two.len();
         progs.extend(two);
         let scope = format!(
